@@ -8,7 +8,7 @@ _GEN7_NEW = ("SEVENTH ROUND: next_iterate (Props/C05_gen4.lean) is now PROVED - 
              "control outcome, accumulator, engine state (incl. the sortMoves counter) and error; Next never panics and never runs out of whitelist fuel. Hypotheses (the statement gen6 left was false without "
              "them; next_iterate_unrestricted_false is a kernel-evaluated counterexample for the first): the ordering oracle does not lengthen the list (sort.Sort permutes), and the loop body keeps the 15 "
              "frames of ai.stack - discharged for the search's own loop bodies (Proofs/SearchFrames.lean search_fr: the search never changes the number of frames), so next_iterate_zwSearch / _multiCut / _pvSearch / "
-             "_analyzeAll / _getMove state it for each of the five `iterate` calls of Impl/Minimax.lean with no hypothesis on the body. The hint stages are additionally tied by fn.mgnext")
+             "_analyzeAll / _getMove state it for each of the five `iterate` calls of Impl/Minimax.lean with no hypothesis on the body; next_iterate_restart covers the second enumeration after mg.Reset() (cached list, stale remembered move) when the cache is nil or nothing is sorted and it holds AllMoves. The hint stages are additionally tied by fn.mgnext")
 _GEN7_OTHER_OLD = "the hint stages and the search loops stay hand-mirrored."
 _GEN7_OTHER_NEW = ("since round 7 the hint stages too: the whole enumeration loop with the regenerated Next is proved to be the model's `iterate` (Props/C05_gen4.lean next_iterate; hypotheses: the ordering oracle "
                    "does not lengthen the list; the loop body keeps the 15 frames - proved for the search's own bodies, Proofs/SearchFrames.lean); the search loops (pvSearch, zwSearch, Analyze) stay hand-mirrored.")
